@@ -104,6 +104,14 @@ def parse_content_disposition(
         substring = string[pos:-1] if string.endswith("*") else string[pos:]
         return substring.isdigit()
 
+    def is_filename_param(key: str) -> bool:
+        return key == "filename" or key.startswith("filename*")
+
+    def strip_root(key: str, text: str) -> str:
+        # A file name must not point outside the upload directory; any other
+        # parameter (the form field name) is delivered as it was sent.
+        return text.lstrip("\\/") if is_filename_param(key) else text
+
     def unescape(text: str, *, chars: str = "".join(map(re.escape, CHAR))) -> str:
         return re.sub(f"\\\\([{chars}])", "\\1", text)
 
@@ -157,7 +165,9 @@ def parse_content_disposition(
                 continue
 
             try:
-                value = unquote(value, encoding, "strict").lstrip("\\/")
+                value = unquote(value, encoding, "strict")
+                if is_filename_param(key):
+                    value = value.lstrip("\\/")
             except (builtins.LookupError, UnicodeDecodeError):
                 # The charset is attacker-controlled here; an unknown name
                 # raises the builtin LookupError (the bare name is shadowed in
@@ -170,7 +180,7 @@ def parse_content_disposition(
             rstripped = value.rstrip()
             if is_quoted(rstripped):
                 failed = False
-                value = unescape(rstripped[1:-1].lstrip("\\/"))
+                value = unescape(strip_root(key, rstripped[1:-1]))
             elif is_token(value):
                 failed = False
             elif value.startswith('"'):
@@ -183,7 +193,7 @@ def parse_content_disposition(
                     _value = f"{_value};{piece}"
                     if is_quoted(_value.rstrip()):
                         del parts[:count]
-                        value = unescape(_value.rstrip()[1:-1].lstrip("\\/"))
+                        value = unescape(strip_root(key, _value.rstrip()[1:-1]))
                         failed = False
                         break
 
